@@ -47,6 +47,16 @@ def isinstance : PyVal → PyType → Bool
   | .dict _, .dict => true
   | _, _ => false
 
+/-- `isinstance(v, bool)` -/
+def isBool : PyVal → Bool
+  | .bool _ => true
+  | _ => false
+
+/-- what `MetadataBase._assert_type` accepts: `strict` (generated from the method's body, `Gen.assertTypeBoolStrict`) =
+`if not isinstance(value, bool) or bool in expected_types:` guards the isinstance loop -/
+def assertTypeOk (strict : Bool) (v : PyVal) (ts : List PyType) : Bool :=
+  if strict then (!v.isBool || ts.contains .bool) && ts.any (v.isinstance ·) else ts.any (v.isinstance ·)
+
 /-- Python truthiness -/
 def truthy : PyVal → Bool
   | .none => false
